@@ -11,6 +11,7 @@ renamefuzz.py, for statement shapes instead of names). MIR-based rules see the o
   letelse_to_match / match_to_iflet / iflet_to_match: the three spellings of a refutable binding
 """
 import itertools
+import json
 
 _ids = itertools.count(1)
 
@@ -376,6 +377,44 @@ def iflet_to_match(raw):
     return raw, n
 
 
+def const_lits(raw):
+    """char / byte / string / integer literals written in a function (expressions and patterns, not macro expansions) are
+    replaced by private constants holding them: `'"'` -> `QUOTE`, `128` -> `DEFAULT_DEPTH`"""
+    n = 0
+    for cname, crate in raw.items():
+        new_items = []
+        made = {}
+        for h in list(crate["hir"]):
+            if "body" not in h or h.get("kind") not in ("Fn", "AssocFn", "Closure"):
+                continue
+            for x in list(_walk_nodes(h["body"])):
+                k = x.get("k")
+                if k == "Lit" and not x.get("x") and x["lit"].get("t") in ("char", "byte", "str", "int") and x.get("ty"):
+                    lit, ty, sp = x["lit"], x.get("ty"), x.get("sp", "")
+                elif k == "PExpr" and x.get("e", {}).get("k") == "PELit" and not x["e"].get("neg") and \
+                        x["e"]["lit"].get("t") in ("char", "byte", "str", "int") and x.get("ty"):
+                    lit, ty, sp = x["e"]["lit"], x.get("ty"), ""
+                else:
+                    continue
+                key = (json.dumps(lit, sort_keys=True), ty)
+                if key not in made:
+                    path = "fzconst_%s::C%d" % (cname, len(made) + 1)
+                    made[key] = path
+                    new_items.append({"path": path, "dp": "::" + path, "kind": "Const", "span": "",
+                                      "body": {"k": "Lit", "lit": lit, "ty": ty.lstrip("&") if lit.get("t") != "str" else ty, "sp": ""}})
+                res = {"r": "def", "dk": "Const { is_type_const: false }", "path": made[key]}
+                if k == "Lit":
+                    for kk in list(x.keys()):
+                        del x[kk]
+                    x.update({"k": "Path", "res": res, "ty": ty, "sp": sp})
+                else:
+                    x["e"] = {"k": "PEPath", "res": res}
+                n += 1
+        crate["hir"].extend(new_items)
+    return raw, n
+
+
 MODES = {"named_tail": named_tail, "early_return": early_return, "bind_cond": bind_cond,
          "negate_if": negate_if, "reverse_arms": reverse_arms, "hoist_args": hoist_args,
-         "letelse_to_match": letelse_to_match, "match_to_iflet": match_to_iflet, "iflet_to_match": iflet_to_match}
+         "letelse_to_match": letelse_to_match, "match_to_iflet": match_to_iflet, "iflet_to_match": iflet_to_match,
+         "const_lits": const_lits}
